@@ -387,13 +387,15 @@ struct Bare : FSM::State {};
 
 // --------------------------------------------------------------------------- reading transitions / plans
 template <typename T>
-inline TxS rd_tx(const T& t) {
+inline TxS rd_tx(const T& t, bool keepStalePayload = false) {
 	TxS s{t.origin, t.destination, 0, 0};
 #if VX_PAYLOAD
 	const Payload* p = t.payload();
 	if (p) { s.set = 1; s.tag = rd_payload(reinterpret_cast<const uint8_t*>(p)); if (reinterpret_cast<uintptr_t>(p) % PALIGN) s.set = 3; /* present but misaligned */ }
 #endif
-	if (t.destination == ffsm2::INVALID_STATE_ID) { s.o = NONE8; s.set = 0; s.tag = 0; }   // an empty transition is "none" whatever its stale fields hold
+	if (t.destination == ffsm2::INVALID_STATE_ID) { s.o = NONE8; if (!keepStalePayload) { s.set = 0; s.tag = 0; } }   // an empty transition is "none" whatever its stale fields hold
+	// (keepStalePayload: the transition a callback is handed as "current" is built afresh for every call, so even when it is empty
+	// its payload() must be null; a non-null one is the payload of some other request)
 	return s;
 }
 template <typename T>
@@ -553,7 +555,7 @@ inline void obs_common(Ev& e, C& c) {
 #endif
 }
 
-template <typename C> inline void obs_current(Ev& e, C& c) { e.cur = rd_tx(c.currentTransition()); e.flags |= OF_CUR; }
+template <typename C> inline void obs_current(Ev& e, C& c) { e.cur = rd_tx(c.currentTransition(), true); e.flags |= OF_CUR; }
 template <typename C> inline void obs_pending(Ev& e, C& c) { e.pend = rd_tx(c.pendingTransition()); e.flags |= OF_PEND; }
 
 // --------------------------------------------------------------------------- performing decisions
